@@ -134,7 +134,7 @@ def run(tier, seed):
         "known_finding_occurrences": v.n_known, "new_violations": v.n_new,
     }, time.time() - t0, violations=v.n_new,
         assumptions=["ShapeAir family: functional transition constraints of the stated degrees, optional periodic factor, all assertion kinds; "
-                     "auxiliary segments and Lagrange-kernel columns are not yet generated",
+                     "auxiliary segments (running-sum / running-product columns over random elements) and a Lagrange-kernel column with a stand-in GKR proof are part of the family",
                      "traces are valid by construction (forward execution); rows no enforced transition reaches are random in half of the scenarios"])
     return rc
 
